@@ -29,7 +29,8 @@ RULE = (
     "all byte strings of length 0..2 (thorough: 0..3) exhaustively, plus Hypothesis-generated frames: every message "
     "code (biased to defined ones), additional-info length {0, small, = remaining, > remaining, 255, lying}, all "
     "Ctrl1/Ctrl2/EFF values, NPDU length {consistent, +1, -1, 0, 255, random}, every TPCI octet, raw APDUs over the "
-    "10-bit APCI space with 0..254 data octets, M_Prop frames (valid/unknown object types, noe=0 error forms, "
+    "10-bit APCI space with 0..254 data octets, A_Sec APDUs (APCI 0x3F1) with every Security Control Field octet x lengths 12/13/14/20 x "
+    "message codes x destination kinds (enumerated) and generated ones biased to reserved algorithm / service codes, M_Prop frames (valid/unknown object types, noe=0 error forms, "
     "lengths 0..12), truncations, random bytes. Non-trivial = message code is L_Data.req/.con/.ind or "
     "M_PropRead/Write/Info and at least one more octet follows, i.e. the frame reaches CEMILData / CEMIMPropInfo parsing"
     "; thorough tier only: atheris/libFuzzer campaigns (vk/fuzz.py, fuzz/c12_target.py; 8 processes, half from an empty corpus, half from "
@@ -218,8 +219,20 @@ def _enum_shard(ctx, length: int, first: int | None) -> None:
     ctx.bulk(n, nt, f"exhaustive-len{length}")
 
 
+def enumerate_asec(ctx) -> None:
+    """L_Data frames carrying an A_Sec APDU (APCI 0x3F1): every Security Control Field octet (all algorithm / service
+    codes incl. the reserved ones) x APDU lengths 12/13/14/20 x message codes x destination kinds; full oracle."""
+    frames = S.asec_scf_sweep_frames()
+    with Patched() as rec:
+        for raw in frames:
+            oracle_full(ctx, raw, rec)
+            ctx.classes["asec-scf-sweep"] += 1
+    ctx.notes["asec_scf_sweep_frames"] = len(frames)
+
+
 def _gen_shard(ctx, n_examples: int) -> None:
     with Patched() as rec:
+        hyp_search(ctx, S.asec_ldata_frames(), lambda c, raw: oracle_full(c, raw, rec), max(50, n_examples // 5), seed_salt=78)
         hyp_search(ctx, S.raw_cemi_frames(), lambda c, raw: oracle_full(c, raw, rec), n_examples)
         hyp_search(ctx, S.wellformed_ldata_frames(), lambda c, raw: oracle_full(c, raw, rec), n_examples // 2, seed_salt=77)
 
@@ -248,6 +261,7 @@ def run(ctx) -> None:
         for raw in [b""] + [bytes([a]) for a in range(256)] + [bytes([a, b]) for a in S.L_DATA_CODES + S.M_PROP_CODES + (0x00,) for b in range(256)]:
             kind, _ = parse_only(ctx.sub(0), raw)  # failures already recorded by the bulk pass
             check_handler(ctx, rec, raw, kind)
+    enumerate_asec(ctx)
     if not ctx.quick:
         parallel(ctx, _enum_shard, [(3, a) for a in range(256)])
     ctx.notes["exhaustive_lengths"] = "0..2" if ctx.quick else "0..3"
